@@ -37,9 +37,6 @@ func nProps(typ int) int {
 // apiProps: the properties that can be set through the public API (C01
 // domain). DISCONNECT has no setters for its three properties.
 func apiMask(typ int) int {
-	if typ == 14 {
-		return 0
-	}
 	return 1<<uint(nProps(typ)) - 1
 }
 
@@ -89,11 +86,7 @@ func apiShapes(typ int, thorough, wellFormed bool) []Sh {
 		s.NList = max(minList, nl)
 		out = append(out, s)
 	}
-	if hasList(typ) && !wellFormed {
-		s := base
-		s.NList = 0
-		out = append(out, s)
-	}
+	_ = minList
 	// everything present: scalars assumed non-zero (one path), two user properties
 	s := base
 	s.Mask, s.NUser, s.Nz = all, 2, 1
